@@ -26,7 +26,7 @@ partial def loop (h : IO.FS.Stream) (s : Comp) (sros : List (Nat × List Nat)) :
   | ["regA", _, _, _, "#b"] => IO.println "ValueError []"; loop h s sros
   | ["regA", _, _, _, "#n"] => IO.println "ValueError []"; loop h s sros
   | ["regA", _, _, _, "#t"] => IO.println "ValueError []"; loop h s sros
-  | ["regU", c, p, name, info] => let r := registerUtility s (comp c).get! p.toNat! (nm name) info; IO.println (out r); loop h r.1 sros
+  | ["regU", c, p, name, info] => let r := registerUtility s (comp c).get! (if p.startsWith "^" then (p.drop 1).toString.toNat! else p.toNat!) (nm name) info; IO.println (out r); loop h r.1 sros
   | ["unregU", c, p, name] => let r := unregisterUtility s (comp c) p.toNat! name; IO.println (out r); loop h r.1 sros
   | ["regA", c, req, p, name] => let r := registerAdapter s (comp c).get! (nums req) p.toNat! (nm name) "i"; IO.println (out r); loop h r.1 sros
   | ["unregA", c, req, p, name] => let r := unregisterAdapter s (comp c) (nums req) p.toNat! name; IO.println (out r); loop h r.1 sros
